@@ -85,6 +85,11 @@ func runOnce(c caseT, prefix []int) *explore.Exec {
 			r := fmt.Sprint(res)
 			obs = append(obs, fmt.Sprintf("#%d %s=%s time=%v active=%v", i, st, r, m.Time(nil), m.ActiveStates(nil)))
 		}
+		// list-valued views that are derived, not stored
+		rev := slices.Clone(names)
+		slices.Reverse(rev)
+		obs = append(obs, fmt.Sprintf("parse=%v", m.ParseStates(append(rev, "Unknown"))))
+		obs = append(obs, "inspect="+m.Inspect(nil))
 		if l != nil {
 			var seq []string
 			for _, cl := range l.Calls {
